@@ -118,8 +118,10 @@ def run_shutdown(wk, sig, phases, appfin="within", graceful=3, bind="tcp", slack
     before the final signal, e.g. ("TTIN", "TTOU") retires the busy worker first"""
     nworkers = len(phases) if wk == "sync" else 1
     threads = max(2, len(phases)) if wk == "gthread" else None
-    s = rp.Server(wk, workers=nworkers, threads=threads, bind=bind, pidfile=True,
-                  args=["--graceful-timeout", str(graceful), "--keep-alive", "5", "--timeout", "60"], name="c04")
+    # "tcp2": a second listener that stays idle while the clients use the first one
+    extra = ["-b", "127.0.0.1:%d" % rp.free_port()] if bind == "tcp2" else []
+    s = rp.Server(wk, workers=nworkers, threads=threads, bind="tcp" if bind == "tcp2" else bind, pidfile=True,
+                  args=["--graceful-timeout", str(graceful), "--keep-alive", "5", "--timeout", "60"] + extra, name="c04")
     try:
         s.start()
         wpids = s.wait_booted(nworkers)
@@ -134,6 +136,25 @@ def run_shutdown(wk, sig, phases, appfin="within", graceful=3, bind="tcp", slack
             c.ready.wait(10)
         allpids = set(wpids)
         for name in pre:
+            if name == "TERMNEW":
+                # back out of an upgrade: stop the master that USR2 started, wait until the old one has reaped it
+                newpid = None
+                deadline = time.time() + 6
+                while time.time() < deadline and not newpid:
+                    try:
+                        with open(s.pidfile + ".2") as f:
+                            newpid = int(f.read().strip() or 0)
+                    except (OSError, ValueError):
+                        time.sleep(0.05)
+                if newpid:
+                    time.sleep(0.5)
+                    allpids |= set(rp.children_of(newpid))
+                    os.kill(newpid, signal.SIGTERM)
+                    deadline = time.time() + 8
+                    while time.time() < deadline and rp.proc_state(newpid) not in (None, "Z"):
+                        time.sleep(0.05)
+                    time.sleep(1.5)
+                continue
             s.signal(getattr(signal, "SIG" + name))
             time.sleep(0.6)
             allpids |= set(s.workers())
@@ -174,7 +195,9 @@ def plan_for(ctx):
                 ("gthread", "TERM", ["app_running", "resp_partial", "keepalive_idle"], "within", "unix"),
                 ("gevent", "TERM", ["app_running", "head_partial", "head_partial_late", "resp_partial"], "within", "tcp"),
                 ("sync", "QUIT", ["app_running"], "within", "unix"),
-                ("sync", "TERM", ["app_running"], "overrun", "tcp", ("TTIN", "TTOU"))]
+                ("sync", "TERM", ["app_running"], "overrun", "tcp", ("TTIN", "TTOU")),
+                ("gevent", "TERM", ["app_running", "resp_partial"], "within", "tcp2"),
+                ("sync", "TERM", ["app_running"], "within", "unix", ("USR2", "TERMNEW"))]
     plan = []
     for wk in ("sync", "gthread", "gevent", "eventlet"):
         for bind in ("tcp", "unix"):
@@ -186,6 +209,9 @@ def plan_for(ctx):
         plan.append((wk, "INT", ["app_running", "idle"], "never", "unix"))
         plan.append((wk, "TERM", ["app_running"], "overrun", "tcp", ("TTIN", "TTOU")))
         plan.append((wk, "QUIT", ["app_running"], "never", "tcp", ("TTIN", "TTOU")))
+        plan.append((wk, "TERM", ["app_running", "resp_partial", "head_partial"], "within", "tcp2"))
+        plan.append((wk, "TERM", ["app_running"], "within", "unix", ("USR2", "TERMNEW")))
+        plan.append((wk, "QUIT", ["idle"], "within", "unix", ("USR2", "TERMNEW")))
     return plan
 
 
@@ -201,7 +227,7 @@ def worker_side(ctx):
             results[i] = run_shutdown(wk, sig, phases, appfin, graceful=3, bind=bind, pre=pre)
         except Exception as e:   # noqa
             results[i] = e
-    par = 5
+    par = 6
     for base in range(0, len(plan), par):
         ths = [threading.Thread(target=runner, args=(i,)) for i in range(base, min(base + par, len(plan)))]
         [t.start() for t in ths]
